@@ -2069,7 +2069,7 @@ static Boolean DecodeAttrPart_H8_5(void) {
             } else {
                 strmaxcpy(Format, AttrPart.str.p_str, STRINGSIZE - 1);
             }
-            strcpy(AttrPart.str.p_str, p + 1);
+            strmov(AttrPart.str.p_str, p + 1);
         }
         break;
     default:
